@@ -63,19 +63,20 @@ Definition check (c : case) : N :=
       | GPanic, _ => false
       | GErr _, _ => true
       end in
-    (* expiry as requested: none for ttl 0, now+ttl otherwise (in the key's epoch) *)
+    (* expiry as requested: none for ttl 0, now+ttl otherwise (in the key's epoch); a date at or
+       before the epoch is stored as the earliest one (the key is expired), a date beyond the field
+       as the latest *)
     let expiry_ok :=
       match out with
       | GOk k _ =>
         if (ttl =? 0)%Z then key_expiry_field k =? 0
         else if (timeOffset <? expires)%Z && (expires <? timeOffset + 4294967296)%Z
              then near (key_expiry_field k) (Z.to_N (expires - timeOffset))
-             else false
+             else if (expires <=? timeOffset)%Z then key_expiry_field k <=? 2
+             else 4294967290 <=? key_expiry_field k
       | _ => true
       end in
-    bit corr 1 |+| bit oracle 2
-    (* F19: a ttl that puts the expiry before 2010 (in particular any large negative ttl) wraps *)
-    |+| (if expiry_ok then 0 else if corr && (expires <=? timeOffset)%Z then 16 else 2)
+    bit corr 1 |+| bit oracle 2 |+| bit expiry_ok 2
   | CProbe parent pstr ct now text perm ok =>
     let decrypt := fun s => if bytes_eqb s pstr then parent else Err KCorrupt in
     let contracts := fun id => if id =? ct_id ct then Some ct else None in
